@@ -32,7 +32,7 @@ class C05(SessionCheck):
 
     def judge(self, case, obs, outs):
         model_out, _clauses, spec_q = outs
-        fails = self.tie_failures(case, obs, model_out)
+        fails = self.tie_failures(case, obs, model_out) + self.reset_failures(case, obs)
         rows = self.rows_before(case, obs)
         k = 0
         total_ops = sum(len(j) for j in case["spec"])
